@@ -5,7 +5,7 @@ From V Require Import model.Base model.Obs model.RelocOption.
 Open Scope N_scope.
 
 Theorem ro_step_eq o op : ro_step o op = so_step o op.
-Proof. destruct op, o as [v|]; cbn; try reflexivity; destruct (memo l v); reflexivity. Qed.
+Proof. destruct op, o as [x|]; cbn; try reflexivity; destruct (memo l x); reflexivity. Qed.
 
 Fixpoint ro_run (o : option N) (ops : list oop) : list (obs * list N) :=
   match ops with [] => [] | op :: t => let '(o', ob, d) := ro_step o op in (ob, d) :: ro_run o' t end.
